@@ -2618,6 +2618,11 @@ class Enumerator:
         if isinstance(x, (ast.List, ast.Tuple)) and not any(
                 isinstance(e, ast.Starred) for e in x.elts):
             return [loc(y(e)) for e in x.elts]
+        if isinstance(x, (ast.Name, ast.Attribute, ast.Subscript, ast.Call)):
+            # any other iterable: its elements, one yield each
+            return [loc(ast.For(
+                target=ast.Name(id='_yf', ctx=ast.Store()), iter=x,
+                body=[y(ast.Name(id='_yf', ctx=ast.Load()))], orelse=[]))]
         return None
 
     def _catches_value_error(self, trynode):
